@@ -150,6 +150,7 @@ CONFIG_VARIANTS = [
     ("MACD", dict(fast_period=2, slow_period=3, signal_period=2), 3, dict(fullname_override="M.1")),   # '.' is sanitised to ','
     ("SMA", dict(period=2), 1, dict(candlestick_type="HA")),
     ("ATR", dict(period=2), 2, dict(candlestick_type="HA", name_suffix="ha")),
+    ("EMA", dict(period=2), 1, dict(candlestick_type="HA", name_suffix="ha2")),
     ("STOCH", dict(period=2, slow_period=2, smoothing_k=2), 3, dict(input_value="high")),
     ("KC", dict(period=2, multiplier=1.5), 2, dict(input_value="low")),
     ("TSI", dict(period=3), 3, dict()),
